@@ -324,7 +324,8 @@ func (table *Table) DelAggregator(id int) error {
 
 	agg := conf.aggregators[id]
 	fmt.Println("len", len(conf.aggregators))
-	conf.aggregators = append(conf.aggregators[:id], conf.aggregators[id+1:]...)
+	// the full slice expression forces append to copy: concurrent Dispatch calls may still be iterating over the old slice
+	conf.aggregators = append(conf.aggregators[:id:id], conf.aggregators[id+1:]...)
 	fmt.Println("len", len(conf.aggregators))
 	agg.Shutdown()
 	table.config.Store(conf)
@@ -338,7 +339,8 @@ func (table *Table) DelBlacklist(index int) error {
 	if index >= len(conf.blacklist) {
 		return fmt.Errorf("Invalid index %d", index)
 	}
-	conf.blacklist = append(conf.blacklist[:index], conf.blacklist[index+1:]...)
+	// the full slice expression forces append to copy: concurrent Dispatch calls may still be iterating over the old slice
+	conf.blacklist = append(conf.blacklist[:index:index], conf.blacklist[index+1:]...)
 	table.config.Store(conf)
 	return nil
 }
@@ -361,7 +363,8 @@ func (table *Table) DelRewriter(id int) error {
 		return fmt.Errorf("Invalid index %d", id)
 	}
 
-	conf.rewriters = append(conf.rewriters[:id], conf.rewriters[id+1:]...)
+	// the full slice expression forces append to copy: concurrent Dispatch calls may still be iterating over the old slice
+	conf.rewriters = append(conf.rewriters[:id:id], conf.rewriters[id+1:]...)
 	table.config.Store(conf)
 	return nil
 }
@@ -384,7 +387,8 @@ func (table *Table) DelRoute(key string) error {
 		return nil
 	}
 
-	conf.routes = append(conf.routes[:toDelete], conf.routes[toDelete+1:]...)
+	// the full slice expression forces append to copy: concurrent Dispatch calls may still be iterating over the old slice
+	conf.routes = append(conf.routes[:toDelete:toDelete], conf.routes[toDelete+1:]...)
 	table.config.Store(conf)
 
 	err := route.Shutdown()
